@@ -1,3 +1,504 @@
+//! C09 - Recon text is a faithful and stable encoding, however it is chunked.
+//! Engine E4: bounded-exhaustive enumeration of model values / typed values, the three printers,
+//! the one-shot parser and the two resumable decoders under every 1-cut, every 2-cut (len <= 48)
+//! and the byte-by-byte chunking.
+
+mod checks;
+mod gen;
+mod lex;
+mod model;
+mod subject;
+mod typed;
+mod watch;
+
+use checks::{text_violations, text_violations_lim, value_laws, value_violations, Viol, SENTINEL};
+use gen::{shapes, Space};
+use model::{from_json, ref_print, strict_eq, text_class};
+use serde_json::json;
+use std::collections::{BTreeMap, BTreeSet};
+use std::sync::Mutex;
+use std::time::Instant;
+use subject::{calls, print};
+use swimos_model::Value;
+use vcommon::{ncpu, par_map, Ctx, Leg};
+
+/// Violations found so far: per signature the one with the smallest key (deterministic whatever
+/// the thread interleaving).
+struct Acc {
+    found: Mutex<BTreeMap<String, Viol>>,
+}
+
+impl Acc {
+    fn add(&self, v: Viol) {
+        let mut f = self.found.lock().unwrap();
+        match f.get(&v.sig) {
+            Some(old) if old.key <= v.key => {}
+            _ => {
+                f.insert(v.sig.clone(), v);
+            }
+        }
+    }
+    fn add_all(&self, vs: Vec<Viol>) {
+        for v in vs {
+            self.add(v);
+        }
+    }
+}
+
+#[derive(Clone)]
+enum Job {
+    Memo { s: usize, start: usize, end: usize },
+    Shape { s: usize, shape: usize, start: u64, end: u64 },
+}
+
+fn jobs_for(sp: &Space, sizes: std::ops::RangeInclusive<usize>, chunk: u64) -> Vec<Job> {
+    let mut jobs = vec![];
+    for s in sizes {
+        if s < sp.vals.len() {
+            let n = sp.vals[s].len();
+            let mut a = 0;
+            while a < n {
+                let b = (a + chunk as usize).min(n);
+                jobs.push(Job::Memo { s, start: a, end: b });
+                a = b;
+            }
+        } else {
+            for (k, sh) in shapes(s).iter().enumerate() {
+                let n = sp.shape_count(sh);
+                let mut a = 0;
+                while a < n {
+                    let b = (a + chunk).min(n);
+                    jobs.push(Job::Shape { s, shape: k, start: a, end: b });
+                    a = b;
+                }
+            }
+        }
+    }
+    jobs
+}
+
+fn for_each_value(sp: &Space, shape_tabs: &BTreeMap<usize, Vec<gen::Shape>>, job: &Job, mut f: impl FnMut(&Value)) {
+    match job {
+        Job::Memo { s, start, end } => {
+            for v in &sp.vals[*s][*start..*end] {
+                f(v);
+            }
+        }
+        Job::Shape { s, shape, start, end } => {
+            let sh = &shape_tabs[s][*shape];
+            for i in *start..*end {
+                let v = sp.build(sh, i);
+                f(&v);
+            }
+        }
+    }
+}
+
+fn value_nontrivial(v: &Value) -> bool {
+    match v {
+        Value::Record(a, i) => !a.is_empty() || !i.is_empty(),
+        Value::Text(t) => text_class(t.as_str()) != "ident",
+        _ => false,
+    }
+}
+
+#[derive(Default, Clone)]
+struct Tally {
+    states: u64,
+    evaluations: u64,
+    transitions: u64,
+    nontrivial: u64,
+    extra: u64,
+}
+
+impl Tally {
+    fn merge(&mut self, o: &Tally) {
+        self.states += o.states;
+        self.evaluations += o.evaluations;
+        self.transitions += o.transitions;
+        self.nontrivial += o.nontrivial;
+        self.extra += o.extra;
+    }
+}
+
+/// Oracles (1), (2), (4) on every value of the jobs.
+fn run_value_jobs(sp: &Space, tabs: &BTreeMap<usize, Vec<gen::Shape>>, jobs: &[Job], acc: &Acc, leg: &str) -> Tally {
+    let res = par_map(jobs, ncpu(), |_, job| {
+        let c0 = calls();
+        let mut t = Tally::default();
+        for_each_value(sp, tabs, job, |v| {
+            watch::enter("value", "");
+            t.states += 1;
+            if value_nontrivial(v) {
+                t.nontrivial += 1;
+            }
+            let laws = value_laws(v, false);
+            t.evaluations += laws.evaluations;
+            if laws.producible {
+                t.extra += 1;
+            }
+            if !laws.failed.is_empty() {
+                watch::enter("value", &ref_print(v));
+                let (vs, e) = value_violations(v, false, &laws, leg);
+                t.evaluations += e;
+                acc.add_all(vs);
+            }
+            watch::leave();
+        });
+        t.transitions = calls() - c0;
+        t
+    });
+    let mut t = Tally::default();
+    for r in &res {
+        t.merge(r);
+    }
+    t
+}
+
+/// The distinct texts the three printers produce for the values of the jobs.
+fn collect_texts(sp: &Space, tabs: &BTreeMap<usize, Vec<gen::Shape>>, jobs: &[Job], max_chars: Option<usize>) -> BTreeSet<String> {
+    let res = par_map(jobs, ncpu(), |_, job| {
+        let mut out = BTreeSet::new();
+        for_each_value(sp, tabs, job, |v| {
+            for i in 0..3 {
+                if let Ok(t) = print(i, v) {
+                    if max_chars.map(|m| t.chars().count() <= m).unwrap_or(true) {
+                        out.insert(t);
+                    }
+                }
+            }
+        });
+        out
+    });
+    let mut all = BTreeSet::new();
+    for r in res {
+        all.extend(r);
+    }
+    all
+}
+
+/// Oracles (3), (4) on every text; for texts the one-shot parser accepts, oracle (1) on the value
+/// it produced (it is parser-produced by construction).
+fn run_text_jobs(texts: &[String], acc: &Acc, leg: &str, max_cuts: usize, check_parsed: bool) -> Tally {
+    let idx: Vec<usize> = (0..texts.len()).step_by(64).collect();
+    let res = par_map(&idx, ncpu(), |_, &a| {
+        let c0 = calls();
+        let mut t = Tally::default();
+        for text in &texts[a..(a + 64).min(texts.len())] {
+            watch::enter("text", text);
+            t.states += 1;
+            let (vs, st, oneshot) = text_violations::<Value>(text, &strict_eq, SENTINEL, max_cuts, leg, "Value");
+            t.evaluations += st.evaluations;
+            t.nontrivial += st.nontrivial;
+            if st.oneshot_ok {
+                t.extra += 1;
+            }
+            acc.add_all(vs);
+            if check_parsed {
+                if let Some(w) = oneshot.ok() {
+                    let laws = value_laws(w, true);
+                    t.evaluations += laws.evaluations;
+                    if !laws.failed.is_empty() {
+                        let (vs, e) = value_violations(w, true, &laws, leg);
+                        t.evaluations += e;
+                        acc.add_all(vs);
+                    }
+                }
+            }
+            watch::leave();
+        }
+        t.transitions = calls() - c0;
+        t
+    });
+    let mut t = Tally::default();
+    for r in &res {
+        t.merge(r);
+    }
+    t
+}
+
+/// Every single-character deletion and duplication.
+fn mutations(text: &str) -> Vec<String> {
+    let cs: Vec<char> = text.chars().collect();
+    let mut out = vec![];
+    for i in 0..cs.len() {
+        let mut d: Vec<char> = cs.clone();
+        d.remove(i);
+        out.push(d.into_iter().collect());
+        let mut u: Vec<char> = cs.clone();
+        u.insert(i, cs[i]);
+        out.push(u.into_iter().collect());
+    }
+    out
+}
+
+fn replay(ctx: Ctx) -> ! {
+    let r = ctx.replay_request().unwrap().clone();
+    let d = &r["detail"];
+    let acc = Acc { found: Mutex::new(BTreeMap::new()) };
+    let leg = d["leg"].as_str().unwrap_or("replay").to_string();
+    match d["kind"].as_str().unwrap_or("") {
+        "value" => {
+            let v = from_json(&d["value"]).unwrap_or_else(|| vcommon::machinery_failure("replay: bad value"));
+            let force = d["force_producible"].as_bool().unwrap_or(false);
+            let laws = value_laws(&v, force);
+            let (vs, _) = value_violations(&v, force, &laws, &leg);
+            acc.add_all(vs);
+        }
+        "text" => {
+            let text = d["text"].as_str().unwrap_or_else(|| vcommon::machinery_failure("replay: no text"));
+            let max_cuts = d["max_cuts"].as_u64().unwrap_or(2) as usize;
+            let lim = match d["one_cut_limit"].as_u64().unwrap_or(0) {
+                0 => usize::MAX,
+                n => n as usize,
+            };
+            let (vs, _, oneshot) = text_violations_lim::<Value>(text, &strict_eq, SENTINEL, max_cuts, &leg, "Value", lim);
+            acc.add_all(vs);
+            if let Some(w) = oneshot.ok() {
+                let laws = value_laws(w, true);
+                let (vs, _) = value_violations(w, true, &laws, &leg);
+                acc.add_all(vs);
+            }
+        }
+        "typed" => {
+            let name = d["type"].as_str().unwrap_or("").to_string();
+            let index = d["index"].as_u64().unwrap_or(0) as usize;
+            let mut out = vec![];
+            let mut st = typed::TypedStats { states: 0, evaluations: 0, nontrivial: 0, samples: vec![] };
+            let mut runner = typed::Runner { out: &mut out, stats: &mut st, max_cuts: 2, only: Some((name, index)) };
+            typed::run_all(&mut runner);
+            acc.add_all(out);
+        }
+        "hang" => {
+            // re-run the stage on the recorded input under the watchdog
+            let input = d["input"].as_str().unwrap_or("");
+            watch::enter("text", input);
+            let (vs, _, _) = text_violations::<Value>(input, &strict_eq, SENTINEL, 2, &leg, "Value");
+            acc.add_all(vs);
+            watch::leave();
+        }
+        other => vcommon::machinery_failure(&format!("replay: unknown kind {:?}", other)),
+    }
+    let want = r["signature"].as_str().unwrap_or("").to_string();
+    for (sig, v) in acc.found.into_inner().unwrap() {
+        if sig == want {
+            eprintln!("replay: reproduced {}", sig);
+        }
+        ctx.violation("replay", &sig, v.detail);
+    }
+    ctx.finish("model_checking", "replay")
+}
+
 fn main() {
-    vcommon::machinery_failure("C09: engine not built yet");
+    std::panic::set_hook(Box::new(|_| {}));
+    let ctx = Ctx::from_env("C09");
+    watch::start(ctx.root.clone(), ctx.id.clone(), 120);
+    if ctx.replay_request().is_some() {
+        replay(ctx);
+    }
+    let quick = ctx.quick();
+    let acc = Acc { found: Mutex::new(BTreeMap::new()) };
+    let env_usize = |k: &str, d: usize| std::env::var(k).ok().and_then(|s| s.parse().ok()).unwrap_or(d);
+
+    // ------------------------------------------------------------------ spaces
+    let max_size = env_usize("C09_SIZE", ctx.tier.pick(4, 4));
+    let chunk_size = env_usize("C09_CHUNK_SIZE", ctx.tier.pick(3, 3));
+    let mut_size = env_usize("C09_MUT_SIZE", ctx.tier.pick(2, 3));
+    let big_bytes = env_usize("C09_BIG", ctx.tier.pick(4096, 4096));
+    let one_cut_limit = env_usize("C09_ONE_CUT_LIMIT", ctx.tier.pick(4200, 40000));
+    let t0 = Instant::now();
+    let memo = (max_size.max(chunk_size).max(mut_size) - 1).max(3);
+    let sp = Space::new(gen::atoms_full(), memo);
+    let mut tabs: BTreeMap<usize, Vec<gen::Shape>> = BTreeMap::new();
+    for s in 2..=max_size.max(5) {
+        tabs.insert(s, shapes(s));
+    }
+    eprintln!("[C09] space built in {:.1}s: counts {:?}", t0.elapsed().as_secs_f64(), (1..=max_size).map(|s| sp.count(s)).collect::<Vec<_>>());
+
+    // ------------------------------------------------------------------ leg 1: model values
+    {
+        let t0 = Instant::now();
+        let jobs = jobs_for(&sp, 1..=max_size, 2048);
+        let t = run_value_jobs(&sp, &tabs, &jobs, &acc, "model_values");
+        ctx.add_leg(Leg {
+            name: "model_values".into(),
+            engine: "E4-enum".into(),
+            states: t.states,
+            transitions: t.transitions,
+            evaluations: t.evaluations,
+            distinct_nontrivial: t.nontrivial,
+            rule: "every model value of tree size <= bound x 3 printers (+ the re-print of every differing parse image); non-trivial = records with at least one attribute or item and texts that are not bare identifiers".into(),
+            samples: vec![
+                json!(format!("{} -> {:?}", ref_print(&sp.vals[2][7]), (0..3).map(|i| print(i, &sp.vals[2][7]).unwrap_or_default()).collect::<Vec<_>>())),
+                json!(format!("{} -> {:?}", ref_print(&sp.vals[3][5000]), (0..3).map(|i| print(i, &sp.vals[3][5000]).unwrap_or_default()).collect::<Vec<_>>())),
+                json!(format!("{} -> {:?}", ref_print(&sp.vals[3][20001]), (0..3).map(|i| print(i, &sp.vals[3][20001]).unwrap_or_default()).collect::<Vec<_>>())),
+            ],
+            exhaustive: true,
+            bounds: json!({"tree_size_max": max_size, "atoms": gen::atoms_full().len(), "attr_names": gen::NAMES, "attrs_max": 2, "items_max": 2,
+                "values_per_size": (1..=max_size).map(|s| sp.count(s)).collect::<Vec<_>>(), "parser_producible_values": t.extra}),
+            wall_s: t0.elapsed().as_secs_f64(),
+        });
+    }
+
+    // ------------------------------------------------------------------ leg 2: chunking of printed texts
+    let printed: Vec<String>;
+    {
+        let t0 = Instant::now();
+        let jobs = jobs_for(&sp, 1..=chunk_size, 2048);
+        let set = collect_texts(&sp, &tabs, &jobs, None);
+        printed = set.into_iter().collect();
+        let t = run_text_jobs(&printed, &acc, "chunking_printed", 2, false);
+        ctx.add_leg(Leg {
+            name: "chunking_printed".into(),
+            engine: "E4-enum".into(),
+            states: t.states,
+            transitions: t.transitions,
+            evaluations: t.evaluations,
+            distinct_nontrivial: t.nontrivial,
+            rule: "every distinct text printed (3 printers) for values of tree size <= bound x {RecognizerDecoder, WithLenRecognizerDecoder} x {no cut, every 1-cut, every 2-cut when len <= 48, byte-by-byte}; non-trivial = chunkings with a cut strictly inside a token, a UTF-8 sequence or the length prefix".into(),
+            samples: vec![json!(printed[printed.len() / 3]), json!(printed[printed.len() / 2]), json!(printed[printed.len() - 7])],
+            exhaustive: true,
+            bounds: json!({"tree_size_max": chunk_size, "distinct_texts": printed.len(), "two_cut_limit_bytes": 48, "texts_accepted_by_oneshot": t.extra}),
+            wall_s: t0.elapsed().as_secs_f64(),
+        });
+    }
+
+    // ------------------------------------------------------------------ leg 3: mutated texts
+    {
+        let t0 = Instant::now();
+        let jobs = jobs_for(&sp, 1..=mut_size, 2048);
+        let base = collect_texts(&sp, &tabs, &jobs, Some(24));
+        let base_v: Vec<&String> = base.iter().collect();
+        let parts = par_map(&base_v, ncpu(), |_, t| mutations(t));
+        let mut set: BTreeSet<String> = BTreeSet::new();
+        for p in parts {
+            set.extend(p);
+        }
+        let printed_set: BTreeSet<&String> = printed.iter().collect();
+        let texts: Vec<String> = set.into_iter().filter(|t| !printed_set.contains(t)).collect();
+        let t = run_text_jobs(&texts, &acc, "mutated_texts", 2, true);
+        ctx.add_leg(Leg {
+            name: "mutated_texts".into(),
+            engine: "E4-enum".into(),
+            states: t.states,
+            transitions: t.transitions,
+            evaluations: t.evaluations,
+            distinct_nontrivial: t.nontrivial,
+            rule: "every single-character deletion / duplication of every printed text of <= 24 chars (values of tree size <= bound), minus the printed texts themselves: no panic, no hang, chunked == one-shot, and round trip of the value when the one-shot parser accepts; non-trivial as in chunking_printed".into(),
+            samples: vec![json!(texts[texts.len() / 3]), json!(texts[texts.len() / 2]), json!(texts[texts.len() - 5])],
+            exhaustive: true,
+            bounds: json!({"tree_size_max": mut_size, "base_texts": base.len(), "distinct_mutated_texts": texts.len(), "accepted_by_oneshot": t.extra,
+                "rejected_by_oneshot": t.states - t.extra}),
+            wall_s: t0.elapsed().as_secs_f64(),
+        });
+    }
+
+    // ------------------------------------------------------------------ leg 4: linear families and long atoms
+    {
+        let t0 = Instant::now();
+        let mut inputs: Vec<(String, Value)> = vec![];
+        for d in 1..=64 {
+            for f in 0..3 {
+                inputs.push((format!("{} depth {}", gen::LINEAR_NAMES[f], d), gen::linear(f, d)));
+            }
+        }
+        inputs.extend(gen::big_values(big_bytes));
+        // heaviest first for load balance
+        inputs.reverse();
+        let res = par_map(&inputs, ncpu(), |_, (name, v)| {
+            let c0 = calls();
+            let mut t = Tally::default();
+            watch::enter("deep_value", name);
+            t.states += 1;
+            t.nontrivial += 1;
+            let laws = value_laws(v, false);
+            t.evaluations += laws.evaluations;
+            if laws.producible {
+                t.extra += 1;
+            }
+            if !laws.failed.is_empty() {
+                let (vs, e) = value_violations(v, false, &laws, "deep_and_long");
+                t.evaluations += e;
+                acc.add_all(vs);
+            }
+            let mut texts = BTreeSet::new();
+            for i in 0..3 {
+                if let Ok(s) = print(i, v) {
+                    texts.insert(s);
+                }
+            }
+            for text in texts {
+                let tt = Instant::now();
+                watch::enter("deep_text", &format!("{} ({} bytes)", name, text.len()));
+                let (vs, st, _) = text_violations_lim::<Value>(&text, &strict_eq, SENTINEL, 2, "deep_and_long", "Value", one_cut_limit);
+                if text.len() > one_cut_limit {
+                    t.extra += 1 << 32;
+                }
+                if std::env::var("C09_DEBUG").is_ok() && tt.elapsed().as_secs_f64() > 1.0 {
+                    eprintln!("  slow: {} {} bytes evals {} {:.1}s", name, text.len(), st.evaluations, tt.elapsed().as_secs_f64());
+                }
+                t.evaluations += st.evaluations;
+                t.nontrivial += st.nontrivial;
+                acc.add_all(vs);
+            }
+            watch::leave();
+            t.transitions = calls() - c0;
+            t
+        });
+        let mut t = Tally::default();
+        for r in &res {
+            t.merge(r);
+        }
+        ctx.add_leg(Leg {
+            name: "deep_and_long".into(),
+            engine: "E4-enum".into(),
+            states: t.states,
+            transitions: t.transitions,
+            evaluations: t.evaluations,
+            distinct_nontrivial: t.nontrivial,
+            rule: "three linear record families at every depth 1..64 and one long text per boundary character / three long blobs: value laws + every 1-cut and the byte-by-byte chunking (2-cuts when len <= 48) of their three renderings; all inputs non-trivial".into(),
+            samples: vec![json!(ref_print(&gen::linear(0, 3))), json!(ref_print(&gen::linear(1, 3))), json!(ref_print(&gen::linear(2, 3)))],
+            exhaustive: true,
+            bounds: json!({"depths": "1..=64", "families": gen::LINEAR_NAMES, "long_atom_bytes": big_bytes, "inputs": inputs.len(), "parser_producible": t.extra & 0xffff_ffff,
+                "one_cut_limit_bytes": one_cut_limit, "texts_longer_than_one_cut_limit": t.extra >> 32,
+                "coverage_of_longer_texts": "no cut, byte-by-byte, and every 1-cut within one_cut_limit/2 bytes of either end"}),
+            wall_s: t0.elapsed().as_secs_f64(),
+        });
+    }
+
+    // ------------------------------------------------------------------ leg 5: typed values
+    {
+        let t0 = Instant::now();
+        let c0 = calls();
+        let mut out = vec![];
+        let mut st = typed::TypedStats { states: 0, evaluations: 0, nontrivial: 0, samples: vec![] };
+        let mut runner = typed::Runner { out: &mut out, stats: &mut st, max_cuts: 2, only: None };
+        typed::run_all(&mut runner);
+        acc.add_all(out);
+        ctx.add_leg(Leg {
+            name: "typed".into(),
+            engine: "E4-enum".into(),
+            states: st.states,
+            transitions: calls() - c0,
+            evaluations: st.evaluations,
+            distinct_nontrivial: st.nontrivial,
+            rule: "battery of built-in and derived types: parse::<T>(print_i(t)) == t for the three printers, and both decoders with T's recognizer under all chunkings of the three renderings; non-trivial = instances whose rendering contains a quote, attribute or record, plus chunkings cutting inside a token".into(),
+            samples: st.samples.clone(),
+            exhaustive: true,
+            bounds: json!({"instances": st.states}),
+            wall_s: t0.elapsed().as_secs_f64(),
+        });
+    }
+
+    let _ = quick;
+    for (sig, v) in acc.found.into_inner().unwrap() {
+        ctx.violation(v.detail["leg"].as_str().unwrap_or("c09"), &sig, v.detail.clone());
+    }
+    ctx.assume("atom pool of boundary values; other magnitudes / strings are not enumerated");
+    ctx.assume("one-shot parser = parse_recognize(.., allow_comments = false), the mode the decoders use");
+    ctx.assume("error results are compared by class (error vs value), not by message or offset");
+    ctx.finish(
+        "model_checking",
+        "bounded-exhaustive enumeration of model values, typed values, printed and mutated texts and of all chunkings, against the real printers, parser and decoders",
+    );
 }
